@@ -24,6 +24,18 @@ CHECKS = {
         note="Callers are assumed to wait exactly the returned time. " + COMMON_NOTE),
 }
 
+CHECKS["C19"] = dict(
+    engine="feeds", level="exploration", design_ref="5/C19",
+    technique="runtime monitoring: generated CSV files read through the real bar sources and compared row by row "
+              "with a reference; the real trade aggregator run under a virtual-time loop with uniquely identifiable "
+              "trades (power-of-two amounts) and an offline window-membership / OHLC / emission-time checker",
+    text="Thousands of generated files (6 encodings/BOMs, row orders, zero-volume and invalid rows, long decimals, "
+         "all periods of the three source classes) and trade streams (window edges at microsecond resolution, late, "
+         "skewed and out-of-order trades, empty windows, 1 s - 1 h bars). Unique amounts make every bar's content "
+         "unambiguous. Exploration: the input space is unbounded and sampled.",
+    note="On-time / late is defined with a 2 ms margin around the nominal flush instant; zero-volume rows are "
+         "don't-care. " + COMMON_NOTE)
+
 NOT_YET = {}
 
 
